@@ -17,7 +17,7 @@ TYPES = [
     ("Any", 8), ("Never", 4), ("List[int]", 6), ("Dict[str, int]", 4), ("Optional[str]", 3),
     ("Tuple[int, ...]", 2), ("Callable[[int], str]", 2), ("Literal['a']", 3), ("Literal[1, 2]", 1),
     ("int | None", 2), ("list[int]", 3), ("List[Any]", 2), ("Type[{C}]", 2), ("{C}", 6), ("{T}", 3),
-    ("List[{T}]", 1), ("'{C}'", 1), ("{D}", 2), ("typing.Any", 1), ("Union[int, str]", 1),
+    ("List[{T}]", 1), ("'{C}'", 1), ("{D}", 2), ("Union[int, str]", 1),
     ("object", 1),
 ]
 
@@ -323,7 +323,8 @@ def stub_for(r, prog, mode):
     if adv and r.random() < 0.12:          # change the signature shape: the stub must then be ignored
       c = r.random()
       if c < 0.4:
-        q["pos"].append({"name": "extra", "ann": "int", "default": None})
+        q["pos"].append({"name": "extra", "ann": "int",
+                         "default": "..." if any(x["default"] for x in q["posonly"] + q["pos"]) else None})
       elif c < 0.6 and q["kwonly"]:
         q["kwonly"][0]["name"] += "x"
       elif c < 0.8 and q["star"] is None and not q["kwonly"]:
@@ -382,7 +383,7 @@ def stub_for(r, prog, mode):
   body = []
   render_items(items, 0, body, stub=True)
   text = "\n".join(body) + "\n"
-  used = [n for n in TYPING_NAMES if re.search(r"\b%s\b" % n, text.replace("typing.Any", ""))]
+  used = [n for n in TYPING_NAMES if re.search(r"\b%s\b" % n, text)]
   head = []
   tv_needed = bool(cx.tvs) and re.search(r"\bT\b", text)
   if tv_needed and "TypeVar" not in used:
